@@ -133,7 +133,7 @@ func runC16(c *Ctx, ev *Evidence) ([]Violation, error) {
 				as = append(as, smt.Not(s.Failed), smt.Not(s.Returned))
 			}
 		}
-		as = append(as, ps.WellFormed(), smt.Not(ps.AllowUnsafe), viol(steps[k-1]))
+		as = append(as, ps.WellFormed(), smt.Not(ps.AllowUnsafe), viol(steps[k-1]), a1RawText(steps))
 		var blocks []*smt.Term
 		for m := 0; m < 6; m++ {
 			vals := lr.witnessValues(steps, nil)
